@@ -131,6 +131,18 @@ CLAIMED: dict[str, tuple[str, str, str, str]] = {
             "(recorded in the replay); hang = no result within 120 s; wall-clock dependent faults (parser "
             "timeouts) are only reachable in the thorough tier's larger blow-ups.",
             "TLA+ fault-sequence enumeration + fault injection into thai-lint + TLC trace validation"),
+    "C20": ("DESIGN.md §5 C20",
+            "spec/ConfigTool.tla models the application config file under set/get/reset (exhaustive for <=4 "
+            "commands over 5 keys x valid/invalid/type-ambiguous values: AtomicReject, OnlyValidStored) and the "
+            "init-config merge (NoRedeclare over all user-section cases; non-vacuity run of the pinned commit's "
+            "exact-key match); TLC-simulated command histories are replayed through real `thailint config` "
+            "processes on YAML and JSON files with byte-level before/after comparison; init-config runs on every "
+            "(user sections x spelling x block/flow/commented style x preset) case measure ValidYaml, Preserve, "
+            "Effect (through the tool's own loader), Idempotent and PresetAccepted (all 20 commands); "
+            "ConfigToolTrace.tla replays histories through the spec's actions and judges every record.",
+            "`returned unchanged` is judged on printed text; Effect through parse_config_file; histories <=8 "
+            "commands.",
+            TECH),
 }
 
 REASON_NOT_YET = ("no check registered yet in this build; the TLA+ technique applies (see DESIGN.md §5) "
